@@ -17,86 +17,166 @@ def SimMode (m : Spec.SMode) (st : LexSt) : Prop :=
   | .bracket => st.mode = .range
   | .err acc => st.mode = .error ∧ st.value = acc
 
-def Sim (sc : Spec.Scan) (st : LexSt) : Prop := SimMode sc.mode st ∧ sc.depth = st.stack.length
+/-- the scanner's open brackets against the tokenizer's stack: a parenthesis is one unmarked
+    function / subexpression token, a brace is an `ARRAYROW` token on top of an `ARRAY` token -/
+inductive StackSim : List Spec.Br → List Tok → Prop where
+  | nil : StackSim [] []
+  | paren {bs : List Spec.Br} {ts : List Tok} (t : Tok) : t.arr = .none →
+      (t.ty = .function ∨ t.ty = .subexpression) → StackSim bs ts → StackSim (.paren :: bs) (t :: ts)
+  | brace {bs : List Spec.Br} {ts : List Tok} (r a : Tok) : r.arr = .row → r.ty = .function →
+      a.arr = .array → StackSim bs ts → StackSim (.brace :: bs) (r :: a :: ts)
+
+def Sim (sc : Spec.Scan) (st : LexSt) : Prop := SimMode sc.mode st ∧ StackSim sc.stack st.stack
 
 theorem errors_eq : errors = Spec.errTexts := rfl
 
-theorem close_len (st : LexSt) (h : st.stack ≠ []) :
-    st.close.mode = st.mode ∧ st.close.stack.length + 1 = st.stack.length ∧ st.close.value = st.value := by
+theorem close_cons (st : LexSt) (t : Tok) (rest : List Tok) (h : st.stack = t :: rest) :
+    st.close.mode = st.mode ∧ st.close.stack = rest ∧ st.close.value = st.value := by
   unfold LexSt.close
-  cases hs : st.stack with
-  | nil => exact absurd hs h
-  | cons t rest => simp
+  simp [h]
+
+theorem stackSim_ne_nil {d : List Spec.Br} {ts : List Tok} (h : StackSim d ts) (hd : d ≠ []) : ts ≠ [] := by
+  cases h with
+  | nil => exact absurd rfl hd
+  | paren => simp
+  | brace => simp
+
+/-- the `,` handler replaces the top of the stack by a token of the same type and mark -/
+theorem stackSim_retop {d : List Spec.Br} {t : Tok} {rest : List Tok} (h : StackSim d (t :: rest)) :
+    StackSim d ((⟨[], t.ty, .stop, t.arr⟩ : Tok) :: rest) := by
+  cases h with
+  | paren _ h1 h2 h3 => exact .paren _ h1 h2 h3
+  | brace _ a h1 h2 h3 h4 => exact .brace _ a h1 h2 h3 h4
+
+theorem stackSim_brace_inv {bs : List Spec.Br} {l : List Tok} (h : StackSim (.brace :: bs) l) :
+    ∃ r a ts, l = r :: a :: ts ∧ r.arr = .row ∧ r.ty = .function ∧ a.arr = .array ∧ StackSim bs ts := by
+  cases h with
+  | brace r a h1 h2 h3 h4 => exact ⟨r, a, _, rfl, h1, h2, h3, h4⟩
+
+theorem stackSim_paren_inv {bs : List Spec.Br} {l : List Tok} (h : StackSim (.paren :: bs) l) :
+    ∃ t ts, l = t :: ts ∧ t.arr = .none ∧ (t.ty = .function ∨ t.ty = .subexpression) ∧ StackSim bs ts := by
+  cases h with
+  | paren t h1 h2 h3 => exact ⟨t, _, rfl, h1, h2, h3⟩
 
 /-- one character with all mode flags off -/
-theorem stepNormal_sim (st : LexSt) (hm : st.mode = .normal) (c : Char) (sc' : Spec.Scan)
-    (h : Spec.scanNormal st.stack.length c = some sc') : Sim sc' (stepNormal st c) := by
+theorem stepNormal_sim (st : LexSt) (hm : st.mode = .normal) (d : List Spec.Br) (hst : StackSim d st.stack)
+    (c : Char) (sc' : Spec.Scan)
+    (h : Spec.scanNormal d c = some sc') : Sim sc' (stepNormal st c) := by
   unfold Spec.scanNormal at h
   by_cases c1 : c = '"'
-  · subst c1; simp at h; subst h; rw [sn_dq]; exact ⟨by simp [SimMode], by simp⟩
+  · subst c1; simp at h; subst h; rw [sn_dq]; exact ⟨by simp [SimMode], by simpa using hst⟩
   simp only [c1, if_false] at h
   by_cases c2 : c = '\''
-  · subst c2; simp at h; subst h; rw [sn_sq]; exact ⟨by simp [SimMode], by simp⟩
+  · subst c2; simp at h; subst h; rw [sn_sq]; exact ⟨by simp [SimMode], by simpa using hst⟩
   simp only [c2, if_false] at h
   by_cases c3 : c = '['
-  · subst c3; simp at h; subst h; rw [sn_lb]; exact ⟨by simp [SimMode], by simp⟩
+  · subst c3; simp at h; subst h; rw [sn_lb]; exact ⟨by simp [SimMode], by simpa using hst⟩
   simp only [c3, if_false] at h
   by_cases c4 : c = '#'
-  · subst c4; simp at h; subst h; rw [sn_hash]; exact ⟨by simp [SimMode], by simp⟩
+  · subst c4; simp at h; subst h; rw [sn_hash]; exact ⟨by simp [SimMode], by simpa using hst⟩
   simp only [c4, if_false] at h
-  by_cases c5 : (c = '{' || c = ';' || c = '}') = true
-  · simp [c5] at h
-  simp only [c5, if_false] at h
-  simp only [Bool.or_eq_true, decide_eq_true_eq, not_or] at c5
+  by_cases c5a : c = '{'
+  · subst c5a; simp at h; subst h; rw [sn_lbrace]
+    refine ⟨by simp [SimMode, hm], ?_⟩
+    simp only [open_stack, flush_stack]
+    exact .brace _ _ rfl rfl rfl hst
+  simp only [c5a, if_false] at h
+  by_cases c5b : c = ';'
+  · subst c5b
+    simp only [if_true] at h
+    cases d with
+    | nil => simp at h
+    | cons b bs =>
+    cases b with
+    | paren => simp at h
+    | brace =>
+      obtain ⟨r, a, ts, hs, h1, h2, h3, h4⟩ := stackSim_brace_inv hst
+      simp at h; subst h
+      rw [sn_semi]
+      obtain ⟨k1, k2, _⟩ := close_cons (st.flush .operand) r (a :: ts) (by simpa using hs)
+      have hnd : ¬ (st.flush .operand).close.mode = .dead := by rw [k1]; simp [hm]
+      simp only [hnd, if_false]
+      refine ⟨by simp [SimMode, k1, hm], ?_⟩
+      simp only [open_stack, push_stack, k2]
+      exact .brace _ _ rfl rfl h3 h4
+  simp only [c5b, if_false] at h
+  by_cases c5c : c = '}'
+  · subst c5c
+    simp only [if_true] at h
+    cases d with
+    | nil => simp at h
+    | cons b bs =>
+    cases b with
+    | paren => simp at h
+    | brace =>
+      obtain ⟨r, a, ts, hs, h1, h2, h3, h4⟩ := stackSim_brace_inv hst
+      simp at h; subst h
+      rw [sn_rbrace]
+      obtain ⟨k1, k2, _⟩ := close_cons (st.flush .operand) r (a :: ts) (by simpa using hs)
+      have hnd : ¬ (st.flush .operand).close.mode = .dead := by rw [k1]; simp [hm]
+      simp only [hnd, if_false]
+      obtain ⟨m1, m2, _⟩ := close_cons ((st.flush .operand).close) a ts k2
+      exact ⟨by simp [SimMode, m1, k1, hm], by rw [m2]; exact h4⟩
+  simp only [c5c, if_false] at h
   by_cases c6 : c = '('
   · subst c6; simp at h; subst h; rw [sn_lp]
-    by_cases hv : st.value = [] <;> simp [hv, Sim, SimMode, hm]
+    by_cases hv : st.value = []
+    · simp only [hv, if_true]
+      exact ⟨by simp [SimMode, hm], by simpa using StackSim.paren _ rfl (Or.inr rfl) hst⟩
+    · simp only [hv, if_false]
+      exact ⟨by simp [SimMode, hm], by simpa using StackSim.paren _ rfl (Or.inl rfl) hst⟩
   simp only [c6, if_false] at h
   by_cases c7 : c = ')'
   · subst c7
     simp only [if_true] at h
-    by_cases hd : st.stack.length = 0
-    · simp [hd] at h
-    · simp only [hd, if_false] at h
-      injection h with h; subst h
+    cases d with
+    | nil => simp at h
+    | cons b bs =>
+    cases b with
+    | brace => simp at h
+    | paren =>
+      obtain ⟨t, ts, hs, h1, h2, h3⟩ := stackSim_paren_inv hst
+      simp at h; subst h
       rw [sn_rp]
-      have hne : (st.flush .operand).stack ≠ [] := by
-        simp only [flush_stack]; intro e; simp [e] at hd
-      obtain ⟨h1, h2, _⟩ := close_len (st.flush .operand) hne
-      refine ⟨by simp [SimMode, h1, hm], ?_⟩
-      simp only [flush_stack] at h2
-      simp; omega
+      obtain ⟨k1, k2, _⟩ := close_cons (st.flush .operand) t ts (by simpa using hs)
+      exact ⟨by simp [SimMode, k1, hm], by rw [k2]; exact h3⟩
   simp only [c7, if_false] at h
   by_cases c8 : c = ','
   · subst c8
     simp only [if_true] at h
-    by_cases hd : st.stack.length = 0
+    by_cases hd : d = []
     · simp [hd] at h
     · simp only [hd, if_false] at h
       injection h with h; subst h
       rw [sn_comma]
-      cases hst : st.stack with
-      | nil => simp [hst] at hd
+      cases hs : st.stack with
+      | nil => exact absurd hs (stackSim_ne_nil hst hd)
       | cons t rest =>
-        simp only [flush_stack, hst]
-        by_cases hf : t.ty = .function <;> simp [hf, Sim, SimMode, hm]
+        simp only [flush_stack, hs]
+        rw [hs] at hst
+        have hre := stackSim_retop hst
+        by_cases hf : t.ty = .function
+        · simp only [hf, if_true]; rw [hf] at hre
+          exact ⟨by simp [SimMode, hm], by simpa using hre⟩
+        · simp only [hf, if_false]
+          exact ⟨by simp [SimMode, hm], by simpa using hre⟩
   simp only [c8, if_false] at h
   injection h with h; subst h
   -- the remaining characters: blank, comparators, infix, percent, plain
   by_cases c9 : c = ' '
-  · subst c9; rw [sn_blank]; exact ⟨by simp [SimMode], by simp⟩
+  · subst c9; rw [sn_blank]; exact ⟨by simp [SimMode], by simpa using hst⟩
   by_cases c10 : c = '<'
-  · subst c10; rw [sn_lt]; exact ⟨by simp [SimMode], by simp⟩
+  · subst c10; rw [sn_lt]; exact ⟨by simp [SimMode], by simpa using hst⟩
   by_cases c11 : c = '>'
-  · subst c11; rw [sn_gt]; exact ⟨by simp [SimMode], by simp⟩
+  · subst c11; rw [sn_gt]; exact ⟨by simp [SimMode], by simpa using hst⟩
   by_cases c12 : isPlainInfix c = true
-  · rw [sn_infix st c c12]; exact ⟨by simp [SimMode, hm], by simp⟩
+  · rw [sn_infix st c c12]; exact ⟨by simp [SimMode, hm], by simpa using hst⟩
   by_cases c13 : c = '%'
-  · subst c13; rw [sn_pct]; exact ⟨by simp [SimMode, hm], by simp⟩
+  · subst c13; rw [sn_pct]; exact ⟨by simp [SimMode, hm], by simpa using hst⟩
   have hsp : isSpecial c = false := by
-    simp [isSpecial, c1, c2, c3, c4, c5.1.1, c5.1.2, c5.2, c6, c7, c8, c9, c10, c11, c12, c13]
+    simp [isSpecial, c1, c2, c3, c4, c5a, c5b, c5c, c6, c7, c8, c9, c10, c11, c12, c13]
   rw [sn_other st c hsp]
-  exact ⟨by simp [SimMode, hm], by simp⟩
+  exact ⟨by simp [SimMode, hm], by simpa using hst⟩
 
 theorem sim_not_dead (sc : Spec.Scan) (st : LexSt) (h : Sim sc st) : st.mode ≠ .dead := by
   intro hd
@@ -110,21 +190,20 @@ theorem step_sim (sc : Spec.Scan) (st : LexSt) (hs : Sim sc st) (c : Char) (sc' 
   cases hsm : sc.mode with
   | normal =>
     simp only [hsm] at h hm
-    rw [hd] at h
     simp only [SimMode] at hm
     rcases hm with hm | hm | ⟨a, hm⟩
     · have e : step st c = stepNormal st c := by simp [step, hm]
-      rw [e]; exact stepNormal_sim st hm c sc' h
+      rw [e]; exact stepNormal_sim st hm _ hd c sc' h
     · by_cases hc : c = ' '
       · subst hc
         have e : step st ' ' = st := by simp [step, hm]
         rw [e]
         simp [Spec.scanNormal] at h; subst h
-        exact ⟨by simp [SimMode, hm], rfl⟩
+        exact ⟨by simp [SimMode, hm], hd⟩
       · have e : step st c = stepNormal { st with mode := .normal } c := by simp [step, hm, hc]
-        rw [e]; exact stepNormal_sim { st with mode := .normal } rfl c sc' h
+        rw [e]; exact stepNormal_sim { st with mode := .normal } rfl _ hd c sc' h
     · by_cases hmc : isMultiCmp a c = true
-      · have e : step st c = { st.push ⟨[a, c], .opInfix, .logical⟩ with mode := .normal } := by
+      · have e : step st c = { st.push ⟨[a, c], .opInfix, .logical, .none⟩ with mode := .normal } := by
           simp [step, hm, hmc]
         rw [e]
         have hc : c = '=' ∨ c = '>' := by
@@ -134,11 +213,11 @@ theorem step_sim (sc : Spec.Scan) (st : LexSt) (hs : Sim sc st) (c : Char) (sc' 
           · exact Or.inl h.2
           · exact Or.inr h.2
         rcases hc with hc | hc <;> subst hc <;> simp [Spec.scanNormal] at h <;> subst h <;>
-          exact ⟨by simp [SimMode], by simp⟩
-      · have e : step st c = stepNormal { st.push ⟨[a], .opInfix, .nothing⟩ with mode := .normal } c := by
+          exact ⟨by simp [SimMode], by simpa using hd⟩
+      · have e : step st c = stepNormal { st.push ⟨[a], .opInfix, .nothing, .none⟩ with mode := .normal } c := by
           simp [step, hm, hmc]
         rw [e]
-        exact stepNormal_sim { st.push ⟨[a], .opInfix, .nothing⟩ with mode := .normal } rfl c sc' h
+        exact stepNormal_sim { st.push ⟨[a], .opInfix, .nothing, .none⟩ with mode := .normal } rfl _ hd c sc' h
   | str =>
     simp only [hsm] at h hm
     simp only [SimMode] at hm
@@ -155,11 +234,11 @@ theorem step_sim (sc : Spec.Scan) (st : LexSt) (hs : Sim sc st) (c : Char) (sc' 
       exact ⟨by simp [SimMode, step, hm], by simp [step, hm, hd]⟩
     · simp only [hc, if_false] at h
       have e : step st c = stepNormal
-          { st with toks := st.toks ++ [⟨st.value, .operand, .text⟩], value := [], mode := .normal } c := by
+          { st with toks := st.toks ++ [⟨st.value, .operand, .text, .none⟩], value := [], mode := .normal } c := by
         simp [step, hm, hc]
       rw [e]
-      rw [hd] at h
-      exact stepNormal_sim _ rfl c sc' h
+      exact stepNormal_sim
+        { st with toks := st.toks ++ [⟨st.value, .operand, .text, .none⟩], value := [], mode := .normal } rfl _ hd c sc' h
   | path =>
     simp only [hsm] at h hm
     simp only [SimMode] at hm
@@ -178,8 +257,7 @@ theorem step_sim (sc : Spec.Scan) (st : LexSt) (hs : Sim sc st) (c : Char) (sc' 
       have e : step st c = stepNormal { st with value := st.value ++ ['\''], mode := .normal } c := by
         simp [step, hm, hc]
       rw [e]
-      rw [hd] at h
-      exact stepNormal_sim _ rfl c sc' h
+      exact stepNormal_sim { st with value := st.value ++ ['\''], mode := .normal } rfl _ hd c sc' h
   | bracket =>
     simp only [hsm] at h hm
     simp only [SimMode] at hm
@@ -211,7 +289,7 @@ theorem scan_sim (s : List Char) (sc : Spec.Scan) (st : LexSt) (hs : Sim sc st) 
       simp only [hstep] at h
       exact ih sc' (step st c) (step_sim sc st hs c sc' hstep) h
 
-theorem sim_init : Sim ⟨.normal, 0⟩ {} := ⟨Or.inl rfl, rfl⟩
+theorem sim_init : Sim ⟨.normal, []⟩ {} := ⟨Or.inl rfl, .nil⟩
 
 /-! ### pass 3 never panics on lexer output -/
 
@@ -316,26 +394,26 @@ theorem step_allOk (st : LexSt) (hi : Inv st) (h : AllOk st.toks) (c : Char) : A
       rw [e]; exact stepNormal_allOk { st with mode := .normal } hs h c
   | cmp a =>
     by_cases hmc : isMultiCmp a c = true
-    · have e : step st c = { st.push ⟨[a, c], .opInfix, .logical⟩ with mode := .normal } := by
+    · have e : step st c = { st.push ⟨[a, c], .opInfix, .logical, .none⟩ with mode := .normal } := by
         simp [step, hm, hmc]
       rw [e]; exact allOk_append _ _ h (by intro _; exact ⟨by simp, by simp⟩)
-    · have e : step st c = stepNormal { st.push ⟨[a], .opInfix, .nothing⟩ with mode := .normal } c := by
+    · have e : step st c = stepNormal { st.push ⟨[a], .opInfix, .nothing, .none⟩ with mode := .normal } c := by
         simp [step, hm, hmc]
       rw [e]
-      exact stepNormal_allOk { st.push ⟨[a], .opInfix, .nothing⟩ with mode := .normal } hs
-        (allOk_append st.toks ⟨[a], .opInfix, .nothing⟩ h (by intro _; exact ⟨by simp, by simp⟩)) c
+      exact stepNormal_allOk { st.push ⟨[a], .opInfix, .nothing, .none⟩ with mode := .normal } hs
+        (allOk_append st.toks ⟨[a], .opInfix, .nothing, .none⟩ h (by intro _; exact ⟨by simp, by simp⟩)) c
   | str =>
     by_cases hc : c = '"' <;> simpa [step, hm, hc] using h
   | strQ =>
     by_cases hc : c = '"'
     · simpa [step, hm, hc] using h
     · have e : step st c = stepNormal
-          { st with toks := st.toks ++ [⟨st.value, .operand, .text⟩], value := [], mode := .normal } c := by
+          { st with toks := st.toks ++ [⟨st.value, .operand, .text, .none⟩], value := [], mode := .normal } c := by
         simp [step, hm, hc]
       rw [e]
       exact stepNormal_allOk
-        { st with toks := st.toks ++ [⟨st.value, .operand, .text⟩], value := [], mode := .normal } hs
-        (allOk_append st.toks ⟨st.value, .operand, .text⟩ h (by intro h1; cases h1)) c
+        { st with toks := st.toks ++ [⟨st.value, .operand, .text, .none⟩], value := [], mode := .normal } hs
+        (allOk_append st.toks ⟨st.value, .operand, .text, .none⟩ h (by intro h1; cases h1)) c
   | path =>
     by_cases hc : c = '\'' <;> simpa [step, hm, hc] using h
   | pathQ =>
@@ -347,7 +425,7 @@ theorem step_allOk (st : LexSt) (hi : Inv st) (h : AllOk st.toks) (c : Char) : A
   | range => simpa [step, hm] using h
   | error =>
     by_cases hv : st.value ++ [c] ∈ errors
-    · have e : step st c = { st with toks := st.toks ++ [⟨st.value ++ [c], .operand, .error⟩], value := [], mode := .normal } := by
+    · have e : step st c = { st with toks := st.toks ++ [⟨st.value ++ [c], .operand, .error, .none⟩], value := [], mode := .normal } := by
         simp [step, hm, hv]
       rw [e]; exact allOk_append _ _ h (by intro h1; cases h1)
     · simpa [step, hm, hv] using h
@@ -363,7 +441,7 @@ theorem lex_allOk (s : List Char) (st : LexSt) (hi : Inv st) (h : AllOk st.toks)
 
 theorem finish_allOk (st : LexSt) (h : AllOk st.toks) : AllOk (finish st).toks := by
   have tail : ∀ s1 : LexSt, AllOk s1.toks →
-      AllOk (if s1.value = [] then s1 else { s1 with toks := s1.toks ++ [⟨s1.value, .operand, .nothing⟩] }).toks := by
+      AllOk (if s1.value = [] then s1 else { s1 with toks := s1.toks ++ [⟨s1.value, .operand, .nothing, .none⟩] }).toks := by
     intro s1 h1
     split
     · exact h1
@@ -371,35 +449,228 @@ theorem finish_allOk (st : LexSt) (h : AllOk st.toks) : AllOk (finish st).toks :
   unfold finish
   apply tail
   split
-  · exact allOk_append st.toks ⟨st.value, .operand, .text⟩ h (by intro h1; cases h1)
+  · exact allOk_append st.toks ⟨st.value, .operand, .text, .none⟩ h (by intro h1; cases h1)
   · exact h
   · exact allOk_append st.toks _ h (by intro _; exact ⟨by simp, by simp⟩)
   · exact h
 
+/-! ### array marks sit only on pseudo-function tokens and row separators -/
+
+/-- only the pseudo-function tokens and the row separator of an array constant carry a mark:
+    infix operators and operands made by pass 1 never do -/
+def plainTok (t : Tok) : Prop := (t.ty = .opInfix ∨ t.ty = .operand) → t.arr = .none
+def AllPlain (l : List Tok) : Prop := ∀ t ∈ l, plainTok t
+
+theorem allPlain_append (l : List Tok) (t : Tok) (h : AllPlain l) (ht : plainTok t) : AllPlain (l ++ [t]) := by
+  intro x hx
+  simp at hx
+  rcases hx with hx | hx
+  · exact h x hx
+  · subst hx; exact ht
+
+theorem allPlain_flush (st : LexSt) (ty : TT) (hty : ty ≠ .opInfix) (h : AllPlain st.toks) :
+    AllPlain (st.flush ty).toks := by
+  unfold LexSt.flush
+  split
+  · exact h
+  · exact allPlain_append _ _ h (by intro _; rfl)
+
+theorem allPlain_close (st : LexSt) (hs : ∀ t ∈ st.stack, t.ty = .function ∨ t.ty = .subexpression)
+    (h : AllPlain st.toks) : AllPlain st.close.toks := by
+  unfold LexSt.close
+  cases hst : st.stack with
+  | nil => exact h
+  | cons t rest =>
+    apply allPlain_append _ _ h
+    intro h1
+    have := hs t (by simp [hst])
+    simp at h1
+    rcases this with h2 | h2 <;> rw [h2] at h1 <;> rcases h1 with h1 | h1 <;> cases h1
+
+theorem stepNormal_allPlain (st : LexSt) (hs : ∀ t ∈ st.stack, t.ty = .function ∨ t.ty = .subexpression)
+    (h : AllPlain st.toks) (c : Char) : AllPlain (stepNormal st c).toks := by
+  have fu := allPlain_flush st .unknown (by decide) h
+  have fo := allPlain_flush st .operand (by decide) h
+  have hsf : ∀ t ∈ (st.flush .operand).stack, t.ty = .function ∨ t.ty = .subexpression := by simpa using hs
+  by_cases hsp : isSpecial c = false
+  · rw [sn_other st c hsp]; exact h
+  · have : isSpecial c = true := by
+      cases h : isSpecial c
+      · exact absurd h hsp
+      · rfl
+    simp only [isSpecial, Bool.or_eq_true, decide_eq_true_eq] at this
+    rcases this with (((((((((((((hc | hc) | hc) | hc) | hc) | hc) | hc) | hc) | hc) | hc) | hc) | hc) | hc) | hc) | hc
+    · subst hc; rw [sn_dq]; exact fu
+    · subst hc; rw [sn_sq]; exact fu
+    · subst hc; rw [sn_lb]; exact h
+    · subst hc; rw [sn_hash]; exact fu
+    · subst hc; rw [sn_lbrace]
+      exact allPlain_append _ _ (allPlain_append _ _ fu (by first | (intro _; rfl) | (intro h; rcases h with h | h <;> cases h))) (by first | (intro _; rfl) | (intro h; rcases h with h | h <;> cases h))
+    · subst hc; rw [sn_semi]
+      split
+      · exact allPlain_close _ hsf fo
+      · exact allPlain_append _ _ (allPlain_append _ _ (allPlain_close _ hsf fo) (by first | (intro _; rfl) | (intro h; rcases h with h | h <;> cases h)))
+          (by first | (intro _; rfl) | (intro h; rcases h with h | h <;> cases h))
+    · subst hc; rw [sn_rbrace]
+      split
+      · exact allPlain_close _ hsf fo
+      · exact allPlain_close _ (close_stack_inv _ hsf) (allPlain_close _ hsf fo)
+    · subst hc; rw [sn_blank]; exact allPlain_append _ _ fo (by first | (intro _; rfl) | (intro h; rcases h with h | h <;> cases h))
+    · subst hc; rw [sn_lt]; exact fo
+    · subst hc; rw [sn_gt]; exact fo
+    · rw [sn_infix st c hc]; exact allPlain_append _ _ fo (by intro _; rfl)
+    · subst hc; rw [sn_pct]; exact allPlain_append _ _ fo (by first | (intro _; rfl) | (intro h; rcases h with h | h <;> cases h))
+    · subst hc; rw [sn_lp]
+      split
+      · exact allPlain_append _ _ h (by first | (intro _; rfl) | (intro h; rcases h with h | h <;> cases h))
+      · exact allPlain_append _ _ h (by first | (intro _; rfl) | (intro h; rcases h with h | h <;> cases h))
+    · subst hc; rw [sn_comma]
+      cases hst : (st.flush .operand).stack with
+      | nil => exact fo
+      | cons t rest =>
+        simp only
+        split
+        · exact allPlain_append _ _ fo (by intro _; rfl)
+        · exact allPlain_append _ _ fo (by first | (intro _; rfl) | (intro h; rcases h with h | h <;> cases h))
+    · subst hc; rw [sn_rp]; exact allPlain_close _ hsf fo
+
+theorem step_allPlain (st : LexSt) (hi : Inv st) (h : AllPlain st.toks) (c : Char) : AllPlain (step st c).toks := by
+  have hs := hi.2
+  cases hm : st.mode with
+  | dead => simpa [step, hm] using h
+  | normal =>
+    have e : step st c = stepNormal st c := by simp [step, hm]
+    rw [e]; exact stepNormal_allPlain st hs h c
+  | skipBlank =>
+    by_cases hc : c = ' '
+    · have e : step st c = st := by simp [step, hm, hc]
+      rw [e]; exact h
+    · have e : step st c = stepNormal { st with mode := .normal } c := by simp [step, hm, hc]
+      rw [e]; exact stepNormal_allPlain { st with mode := .normal } hs h c
+  | cmp a =>
+    by_cases hmc : isMultiCmp a c = true
+    · have e : step st c = { st.push ⟨[a, c], .opInfix, .logical, .none⟩ with mode := .normal } := by
+        simp [step, hm, hmc]
+      rw [e]; exact allPlain_append _ _ h (by intro _; rfl)
+    · have e : step st c = stepNormal { st.push ⟨[a], .opInfix, .nothing, .none⟩ with mode := .normal } c := by
+        simp [step, hm, hmc]
+      rw [e]
+      exact stepNormal_allPlain { st.push ⟨[a], .opInfix, .nothing, .none⟩ with mode := .normal } hs
+        (allPlain_append st.toks ⟨[a], .opInfix, .nothing, .none⟩ h (by intro _; rfl)) c
+  | str =>
+    by_cases hc : c = '"' <;> simpa [step, hm, hc] using h
+  | strQ =>
+    by_cases hc : c = '"'
+    · simpa [step, hm, hc] using h
+    · have e : step st c = stepNormal
+          { st with toks := st.toks ++ [⟨st.value, .operand, .text, .none⟩], value := [], mode := .normal } c := by
+        simp [step, hm, hc]
+      rw [e]
+      exact stepNormal_allPlain
+        { st with toks := st.toks ++ [⟨st.value, .operand, .text, .none⟩], value := [], mode := .normal } hs
+        (allPlain_append st.toks ⟨st.value, .operand, .text, .none⟩ h (by first | (intro _; rfl) | (intro h; rcases h with h | h <;> cases h))) c
+  | path =>
+    by_cases hc : c = '\'' <;> simpa [step, hm, hc] using h
+  | pathQ =>
+    by_cases hc : c = '\''
+    · simpa [step, hm, hc] using h
+    · have e : step st c = stepNormal { st with value := st.value ++ ['\''], mode := .normal } c := by
+        simp [step, hm, hc]
+      rw [e]; exact stepNormal_allPlain { st with value := st.value ++ ['\''], mode := .normal } hs h c
+  | range => simpa [step, hm] using h
+  | error =>
+    by_cases hv : st.value ++ [c] ∈ errors
+    · have e : step st c = { st with toks := st.toks ++ [⟨st.value ++ [c], .operand, .error, .none⟩], value := [], mode := .normal } := by
+        simp [step, hm, hv]
+      rw [e]; exact allPlain_append _ _ h (by first | (intro _; rfl) | (intro h; rcases h with h | h <;> cases h))
+    · simpa [step, hm, hv] using h
+
+theorem lex_allPlain (s : List Char) (st : LexSt) (hi : Inv st) (h : AllPlain st.toks)
+    (hnd : (s.foldl step st).mode ≠ .dead) : AllPlain (s.foldl step st).toks := by
+  induction s generalizing st with
+  | nil => exact h
+  | cons c r ih =>
+    simp only [List.foldl_cons] at hnd ⊢
+    have h1 : (step st c).mode ≠ .dead := fun hd => hnd (foldl_dead r _ hd)
+    exact ih (step st c) (step_out st c hi h1).2 (step_allPlain st hi h c) hnd
+
+theorem finish_allPlain (st : LexSt) (h : AllPlain st.toks) : AllPlain (finish st).toks := by
+  have tail : ∀ s1 : LexSt, AllPlain s1.toks →
+      AllPlain (if s1.value = [] then s1 else { s1 with toks := s1.toks ++ [⟨s1.value, .operand, .nothing, .none⟩] }).toks := by
+    intro s1 h1
+    split
+    · exact h1
+    · exact allPlain_append _ _ h1 (by intro _; rfl)
+  unfold finish
+  apply tail
+  split
+  · exact allPlain_append st.toks ⟨st.value, .operand, .text, .none⟩ h (by first | (intro _; rfl) | (intro h; rcases h with h | h <;> cases h))
+  · exact h
+  · exact allPlain_append st.toks _ h (by intro _; rfl)
+  · exact h
+
+
 /-! ### on scanned-clean input the echo only loses blanks -/
 
-theorem scanNormal_noBrace (d : Nat) (c : Char) (sc' : Spec.Scan) (h : Spec.scanNormal d c = some sc') :
-    emitNormal c = [c] := by
+theorem closeText_row (r : Tok) (h1 : r.arr = .row) (h2 : r.ty = .function) : closeText r = [] := by
+  simp [closeText, renderTok, h1, h2]
+
+theorem closeText_array (a : Tok) (h : a.arr = .array) : closeText a = ['}'] := by
+  simp [closeText, renderTok, h]
+
+theorem closeText_paren (t : Tok) (h1 : t.arr = .none) (h2 : t.ty = .function ∨ t.ty = .subexpression) :
+    closeText t = [')'] := by
+  rcases h2 with h2 | h2 <;> simp [closeText, renderTok, h1, h2]
+
+/-- when the scanner accepts the character, it contributes itself: `)` closes a parenthesis,
+    `;` and `}` stand directly inside a brace -/
+theorem scanNormal_emit (d : List Spec.Br) (stack : List Tok) (hst : StackSim d stack) (c : Char)
+    (sc' : Spec.Scan) (h : Spec.scanNormal d c = some sc') : emitNormal stack c = [c] := by
   unfold Spec.scanNormal at h
-  by_cases hb : (c = '{' || c = ';' || c = '}') = true
-  · have c1 : c ≠ '"' := by
-      intro e; subst e; simp at hb
-    have c2 : c ≠ '\'' := by intro e; subst e; simp at hb
-    have c3 : c ≠ '[' := by intro e; subst e; simp at hb
-    have c4 : c ≠ '#' := by intro e; subst e; simp at hb
-    simp [c1, c2, c3, c4, hb] at h
-  · simp only [Bool.or_eq_true, decide_eq_true_eq, not_or] at hb
-    exact emitNormal_plain c hb.1.1 hb.1.2 hb.2
+  by_cases c5b : c = ';'
+  · subst c5b
+    cases d with
+    | nil => simp at h
+    | cons b bs =>
+    cases b with
+    | paren => simp at h
+    | brace =>
+      obtain ⟨r, a, ts, hs, h1, h2, h3, h4⟩ := stackSim_brace_inv hst
+      subst hs
+      simp [emitNormal, closeText_row r h1 h2]
+  by_cases c5c : c = '}'
+  · subst c5c
+    cases d with
+    | nil => simp at h
+    | cons b bs =>
+    cases b with
+    | paren => simp at h
+    | brace =>
+      obtain ⟨r, a, ts, hs, h1, h2, h3, h4⟩ := stackSim_brace_inv hst
+      subst hs
+      simp [emitNormal, closeText_row r h1 h2, closeText_array a h3]
+  by_cases c7 : c = ')'
+  · subst c7
+    cases d with
+    | nil => simp at h
+    | cons b bs =>
+    cases b with
+    | brace => simp at h
+    | paren =>
+      obtain ⟨t, ts, hs, h1, h2, h3⟩ := stackSim_paren_inv hst
+      subst hs
+      simp [emitNormal, closeText_paren t h1 h2]
+  exact emitNormal_plain stack c c5b c5c c7
 
 theorem emit_sim (sc : Spec.Scan) (st : LexSt) (hs : Sim sc st) (c : Char) (sc' : Spec.Scan)
     (h : Spec.scanStep sc c = some sc') :
-    emit st.mode c = [c] ∨ (c = ' ' ∧ emit st.mode c = []) := by
-  obtain ⟨hm, _⟩ := hs
+    emit st c = [c] ∨ (c = ' ' ∧ emit st c = []) := by
+  obtain ⟨hm, hd⟩ := hs
   unfold Spec.scanStep at h
   cases hsm : sc.mode with
   | normal =>
     simp only [hsm] at h hm
-    have hp := scanNormal_noBrace _ c sc' h
+    have hp := scanNormal_emit _ _ hd c sc' h
     simp only [SimMode] at hm
     rcases hm with hm | hm | ⟨a, hm⟩
     · left; simp [emit, hm, hp]
@@ -413,14 +684,14 @@ theorem emit_sim (sc : Spec.Scan) (st : LexSt) (hs : Sim sc st) (c : Char) (sc' 
     by_cases hc : c = '"'
     · left; simp [emit, hm, hc]
     · simp only [hc, if_false] at h
-      left; simp [emit, hm, hc, scanNormal_noBrace _ c sc' h]
+      left; simp [emit, hm, hc, scanNormal_emit _ _ hd c sc' h]
   | path => simp only [hsm, SimMode] at hm; left; simp [emit, hm]
   | pathQ =>
     simp only [hsm, SimMode] at hm h
     by_cases hc : c = '\''
     · left; simp [emit, hm, hc]
     · simp only [hc, if_false] at h
-      left; simp [emit, hm, hc, scanNormal_noBrace _ c sc' h]
+      left; simp [emit, hm, hc, scanNormal_emit _ _ hd c sc' h]
   | bracket => simp only [hsm, SimMode] at hm; left; simp [emit, hm]
   | err acc => simp only [hsm, SimMode] at hm; left; simp [emit, hm.1]
 
